@@ -82,6 +82,14 @@ CHECKS["C11"] = dict(
     ref="DESIGN.md §5 C11",
 )
 
+CHECKS["C10"] = dict(
+    level="fault_enumeration",
+    text="Fault enumeration with a reference outcome: every child position of every class-bound element x 6 unknown-subtree shapes, every class-bound element x 4 unknown-attribute kinds, every typed leaf x corruption, parsed under all 8 fail_on_* combinations by both handlers (plus unknown keys for DictDecoder/JsonParser); expected outcome (ParserError / object equal to the clean parse / value kept as given with a ConverterWarning) is computed from the IR. Held on the executions produced.",
+    note="Trusted: the IR's notion of which names a class knows (classes with wildcards/attribute maps are not injected), the harness emitter (it must reproduce the clean document before a fault is trusted). Attributes on simple-typed elements and keys below compound fields are not judged (documented limitations).",
+    technique="runtime monitoring: single-fault injection over serializer-produced documents with a reference-model outcome oracle across the 8 option combinations",
+    ref="DESIGN.md §5 C10",
+)
+
 FIX_COMMITS = []  # guarded hook commits in /repo (none: all hooks are installed from the harness side)
 
 
